@@ -12,6 +12,25 @@ NOT_APPLICABLE.update({
     "C09": "Needs execution of generated TypeScript/Java/C++ SDKs; no symbolic engine for these languages is in the sandbox (tsc is absent as well) and their semantics cannot be encoded from this repository's code; solver-based checking of the real code cannot reach it.",
     "C22": "Quantifies over PYTHONHASHSEED, processes and directory listing order; the source of nondeterminism is the interpreter's C runtime (set/dict iteration, os.scandir), over which a solver cannot range without re-modelling all container iteration in the code base.",
 })
-for _p in ["C%02d" % i for i in range(1, 31)]:
-    if _p not in CHECKS and _p not in NOT_APPLICABLE:
-        NOT_APPLICABLE[_p] = NA_PENDING
+
+add("C04", "model_checking",
+    "bounded symbolic execution (CrossHair/z3) of LinenoColumner over a symbolic source text, all offsets, path tree exhausted",
+    "LinenoColumner.__init__/error_message run on a symbolic text (any Unicode, bounded length, sharded by number of line breaks); every "
+    "start offset is compared with the textbook 1-based (line, column). Exhaustion = holds for all texts in the bound. A concrete "
+    "cross-check through the real asttokens on the repository's rejected models is reported beside it.",
+    "asttokens' node->offset mapping is trusted (stubbed in the symbolic part). One open known finding (columns shifted by +1 on lines >= 2).")
+
+add("C16", "model_checking",
+    "bounded symbolic execution (CrossHair/z3) of retree.parse/render/render_pointer on a symbolic pattern + z3 (QF_LIA) language equivalence of pattern and rendering",
+    "The real regex parser, renderer and pointer renderer are executed on a symbolic pattern string (any Unicode, bounded length): no path may raise, "
+    "errors must be positioned, accepted patterns must round-trip structurally; per accepted path the realized pattern, its rendering and the "
+    "parsed tree are compared as languages (Python's own re._parser as reader) by a z3 query over all strings up to a length bound.",
+    "Pattern length bound as in evidence; when a shard's budget ends before its tree is exhausted the evidence says exhaustive=false. "
+    "Language equivalence is decided for one witness per path class, not for every member of the class.")
+
+add("C19", "model_checking",
+    "bounded symbolic execution (CrossHair/z3) of every string/char/bytes literal function against spec-derived literal readers, path trees exhausted",
+    "Each literal function of the six targets is executed on a symbolic text (all Unicode scalar values, bounded length); the emitted literal is read "
+    "back by a reader written from the language specification and must denote the original text. Hex/octal formatting is kept symbolic "
+    "(division-free encoding), so one run covers all 1.1 M code points and all adjacent pairs.",
+    "Readers are the oracle (Python/C++/Java/JS cross-validated against real compilers; C#/Go from the specification text only). Text length bound as in evidence.")
